@@ -157,26 +157,6 @@ Fixpoint wf (e : expr) : bool :=
   | ENew f args => wf f && forallb wf args
   end.
 
-(* no relational operator has an unparenthesised relational expression as its
-   LEFT operand: the region where otto's right-recursive parseRelationalExpression
-   agrees with the (left-associative) grammar *)
-Definition is_rel (e : expr) : bool :=
-  match e with EBin o _ _ => Nat.eqb (lvl o) 9 | _ => false end.
-Fixpoint norel (e : expr) : bool :=
-  match e with
-  | EAtom _ => true
-  | EParen e => norel e
-  | EBin o l r => (if Nat.eqb (lvl o) 9 then negb (is_rel l) else true) && norel l && norel r
-  | EUn _ e => norel e
-  | EPost _ e => norel e
-  | ECond c a b => norel c && norel a && norel b
-  | EAsg _ l r => norel l && norel r
-  | EDot e _ => norel e
-  | EIdx e i => norel e && norel i
-  | ECall f args => norel f && forallb norel args
-  | ENew f args => norel f && forallb norel args
-  end.
-
 (* induction principle that reaches the argument lists *)
 Section Ind.
   Variable P : expr -> Prop.
